@@ -269,6 +269,62 @@ Definition run (with_accessspec_case : bool) (c : cmd) : outcome :=
       end
   end.
 
+(* ------------------------------------------------------------------ replies and TrySend's retry loop *)
+(* What the reader does with one send attempt: answers successfully; answers with a fault (failing
+   LLRPStatus in the expected response, ERROR_MESSAGE, a reply of another type, an undecodable reply)
+   while the connection stays up; or the llrp.Client is closed under the request (SendFor returns
+   an error wrapping ErrClientClosed — the supervision of that case is C15's).
+   TrySend = retry.Quick.RetryWithCtx(ctx, maxSendAttempts, f) where f asks for another attempt
+   only when the error wraps llrp.ErrClientClosed. *)
+Inductive attempt := AOk | AFault | AClosed.
+Definition max_send_attempts : nat := 3.
+
+(* number of times the request is put on the wire, and whether TrySend returns nil;
+   an exhausted script means the reader answers successfully *)
+Fixpoint try_send (fuel : nat) (script : list attempt) : nat * bool :=
+  match fuel with
+  | O => (O, false)
+  | S f =>
+      match script with
+      | [] => (1%nat, true)
+      | AOk :: _ => (1%nat, true)
+      | AFault :: _ => (1%nat, false)
+      | AClosed :: t => let (n, ok) := try_send f t in (S n, ok)
+      end
+  end.
+
+(* handleReadCommands' loop when every request of the command is answered after [script] *)
+Fixpoint read_loop_reply (script : list attempt) (reqs : list req) (acc : list request) : outcome :=
+  match reqs with
+  | [] => mkOut acc false
+  | r :: t =>
+      match read_request r with
+      | Err _ => mkOut acc true
+      | Ok q =>
+          let (n, ok) := try_send max_send_attempts script in
+          let acc' := acc ++ repeat q n in
+          if ok then
+            match r_type r with
+            | TObject => read_loop_reply script t acc'
+            | _ => mkOut acc' true
+            end
+          else mkOut acc' true
+      end
+  end.
+
+(* everything a command puts on the wire and whether it returns an error, when the reader
+   answers each of its requests after [script] *)
+Definition run_reply (with_accessspec_case : bool) (script : list attempt) (c : cmd) : outcome :=
+  match c with
+  | CRead [] => mkOut [] true
+  | CRead reqs => read_loop_reply script reqs []
+  | CWrite _ _ =>
+      match cmd_to_request with_accessspec_case c with
+      | Ok q => let (n, ok) := try_send max_send_attempts script in mkOut (repeat q n) (negb ok)
+      | Err _ => mkOut [] true
+      end
+  end.
+
 (* ================================================================== the documentation *)
 (* Transcribed from spec/doc_commands.json (README.md lines cited there); deliberately written
    as tables + relations, not as the code's if-cascade. *)
